@@ -52,8 +52,6 @@ pub struct Chunk {
     /// Keys the *program* reads while this line's command runs (GETC/IN on the terminal): each
     /// is typed once the terminal is in raw mode again after the line's newline.
     pub program_keys: Vec<Vec<u8>>,
-    /// With program keys: number of prompt redraws once the next prompt is up.
-    pub redraws_after: usize,
 }
 
 /// How the environment of the session is set up.
@@ -282,7 +280,23 @@ pub fn run_pty_in(scratch: &Scratch, asm: &Path, minimal: bool, cols: u16, histo
         }
         pending.clear();
         let want = enters;
-        ok = wait(&mut run, &mut child, &mut exited, &format!("newline for Enter #{}", want), &|r| newlines(&r.stdout) >= want);
+        // The line feed that answers an Enter key: on standard output or on the terminal,
+        // whichever stream this tree sends it to
+        let fed_before = newlines(&run.stdout) + run.tty.iter().filter(|b| **b == b'\n').count();
+        if chunk.program_keys.is_empty() {
+            // (one per Enter on standard output, or one more row with a prompt on the terminal:
+            // neither count can run ahead of the Enter keys the child has taken)
+            ok = wait(&mut run, &mut child, &mut exited, &format!("newline for Enter #{}", want), &|r| {
+                newlines(&r.stdout) >= want || prompt_rows(&r.tty) > want
+            });
+        } else {
+            // (the next prompt only comes once the program has had its keys: any line feed since
+            // the line was typed; everything older had been read before it was typed)
+            ok = wait(&mut run, &mut child, &mut exited, &format!("newline for Enter #{}", want), &|r| {
+                newlines(&r.stdout) + r.tty.iter().filter(|b| **b == b'\n').count() > fed_before
+            });
+        }
+        let mut shots_before = redraws(&run.tty).len();
         for (k, key) in chunk.program_keys.iter().enumerate() {
             if !ok || exited.is_some() {
                 break;
@@ -290,13 +304,17 @@ pub fn run_pty_in(scratch: &Scratch, asm: &Path, minimal: bool, cols: u16, histo
             // The program is waiting for a key: the terminal is raw again
             ok = wait(&mut run, &mut child, &mut exited, &format!("raw mode for program input #{} of line #{}", k, want), &|_| is_raw(m));
             if ok {
+                shots_before = redraws(&run.tty).len();
                 let written = unsafe { libc::write(m, key.as_ptr() as *const libc::c_void, key.len()) };
                 ok = written == key.len() as isize;
             }
         }
         if ok && !chunk.program_keys.is_empty() && i + 1 < chunks.len() {
-            let want_redraws = chunk.redraws_after;
-            ok = wait(&mut run, &mut child, &mut exited, &format!("prompt after line #{}", want), &|r| redraws(&r.tty).len() >= want_redraws);
+            // The next prompt: an empty line drawn after the program had its last key
+            ok = wait(&mut run, &mut child, &mut exited, &format!("prompt after line #{}", want), &|r| {
+                let shots = redraws(&r.tty);
+                shots.len() > shots_before && shots.last().map(|(t, c)| t.is_empty() && *c == 0).unwrap_or(false)
+            });
         }
         if ok && pending_submits && i + 1 < chunks.len() {
             ok = wait(&mut run, &mut child, &mut exited, &format!("raw mode after line #{}", want), &|_| is_raw(m));
@@ -327,8 +345,59 @@ pub fn run_pty_in(scratch: &Scratch, asm: &Path, minimal: bool, cols: u16, histo
     drain(m, &mut run.tty);
     drain(o, &mut run.stdout);
     run.status = exited.and_then(|s| s.code());
-    run.history_after = std::fs::read(&history_file).ok();
+    run.history_after = history_file_in(&cache);
     run
+}
+
+/// The debugger's history file under a cache directory: the documented place, or else the one
+/// regular file found beneath the directory (a tree that keeps its history elsewhere under the
+/// user's cache directory still keeps it).
+pub fn history_file_in(cache: &Path) -> Option<Vec<u8>> {
+    if let Ok(bytes) = std::fs::read(cache.join("lace-debugger-history")) {
+        return Some(bytes);
+    }
+    let mut found: Vec<std::path::PathBuf> = Vec::new();
+    let mut stack = vec![cache.to_path_buf()];
+    while let Some(dir) = stack.pop() {
+        let Ok(entries) = std::fs::read_dir(&dir) else { continue };
+        for e in entries.flatten() {
+            match e.file_type() {
+                Ok(t) if t.is_dir() => stack.push(e.path()),
+                Ok(t) if t.is_file() => found.push(e.path()),
+                _ => {}
+            }
+        }
+    }
+    if found.len() == 1 {
+        std::fs::read(&found[0]).ok()
+    } else {
+        None
+    }
+}
+
+/// Is `after` the history file `before` with `entries` appended? Byte for byte one line per
+/// entry; or, read the way a history file is read (lines, blank ones are nothing), the old
+/// bytes followed by exactly the new entries (an old file without a final line break may or may
+/// not get one before the first new entry).
+pub fn history_appended(before: &[u8], after: &[u8], entries: &[String]) -> bool {
+    let mut want = before.to_vec();
+    for line in entries {
+        want.extend_from_slice(line.as_bytes());
+        want.push(b'\n');
+    }
+    if after == &want[..] {
+        return true;
+    }
+    let Some(rest) = after.strip_prefix(before) else { return false };
+    if !rest.is_empty() && !rest.ends_with(b"\n") {
+        return false;
+    }
+    let lines: Vec<&[u8]> = rest
+        .split(|b| *b == b'\n')
+        .map(|l| l.strip_suffix(b"\r").unwrap_or(l))
+        .filter(|l| !l.iter().all(|b| *b == b' ' || *b == b'\t'))
+        .collect();
+    lines.len() == entries.len() && lines.iter().zip(entries).all(|(l, e)| *l == e.as_bytes())
 }
 
 /// The prompt redraws in the terminal output, as a terminal would show them: (text of the
@@ -339,11 +408,44 @@ pub fn run_pty_in(scratch: &Scratch, asm: &Path, minimal: bool, cols: u16, histo
 /// is put to its column. The prompt is whatever the first redraw shows (the edited line is
 /// empty then), so neither its wording nor the escape sequences used to draw it matter.
 pub fn redraws(tty: &[u8]) -> Vec<(String, usize)> {
+    shots(tty).into_iter().map(|(text, cursor, _)| (text, cursor)).collect()
+}
+
+/// Consecutive equal redraws count once: whether a key that changes nothing is answered by
+/// drawing the same picture again or by drawing nothing is not something a user can see.
+pub fn distinct(redraws: &[(String, usize)]) -> Vec<(String, usize)> {
+    let mut out: Vec<(String, usize)> = Vec::new();
+    for r in redraws {
+        if out.last() != Some(r) {
+            out.push(r.clone());
+        }
+    }
+    out
+}
+
+/// Number of terminal rows on which a prompt was drawn (the first redraw of each row): one per
+/// line feed on the terminal that was followed by a prompt.
+pub fn prompt_rows(tty: &[u8]) -> usize {
+    let shots = shots(tty);
+    let mut rows = 0usize;
+    let mut last: Option<usize> = None;
+    for (_, _, row) in &shots {
+        if last != Some(*row) {
+            rows += 1;
+            last = Some(*row);
+        }
+    }
+    rows
+}
+
+/// Redraws with the terminal row (counted in line feeds) they were drawn on.
+fn shots(tty: &[u8]) -> Vec<(String, usize, usize)> {
     let text = String::from_utf8_lossy(tty);
     let chars: Vec<char> = text.chars().collect();
     let mut line: Vec<char> = Vec::new();
     let mut col = 0usize;
-    let mut shots: Vec<(String, usize)> = Vec::new();
+    let mut shots: Vec<(String, usize, usize)> = Vec::new();
+    let mut row = 0usize;
     let mut i = 0usize;
     while i < chars.len() {
         let c = chars[i];
@@ -367,16 +469,18 @@ pub fn redraws(tty: &[u8]) -> Vec<(String, usize)> {
                     }
                     _ => line.clear(),
                 },
-                'G' => {
-                    col = first.max(1) - 1;
-                    // (a cursor put to the first column of an empty line is the start of a redraw,
-                    // not its end)
+                'G' | 'C' | 'D' => {
+                    col = match final_byte {
+                        'G' => first.max(1) - 1,
+                        'C' => col + first.max(1),
+                        _ => col.saturating_sub(first.max(1)),
+                    };
+                    // Whichever sequence puts the cursor to its column ends a redraw (a cursor
+                    // put to the first column of an empty line is the start of one, not its end)
                     if !(col == 0 && line.is_empty()) {
-                        shots.push((line.iter().collect(), col));
+                        shots.push((line.iter().collect(), col, row));
                     }
                 }
-                'C' => col += first.max(1),
-                'D' => col = col.saturating_sub(first.max(1)),
                 _ => {}
             }
             i = j + 1;
@@ -387,6 +491,7 @@ pub fn redraws(tty: &[u8]) -> Vec<(String, usize)> {
             '\n' => {
                 line.clear();
                 col = 0;
+                row += 1;
             }
             '\u{8}' => col = col.saturating_sub(1),
             c if (c as u32) < 0x20 => {}
@@ -405,7 +510,7 @@ pub fn redraws(tty: &[u8]) -> Vec<(String, usize)> {
         i += 1;
     }
     // The prompt: what the first redraw shows, with the cursor right behind it
-    let Some((prompt, width)) = shots.first().cloned() else {
+    let Some((prompt, width, _)) = shots.first().cloned() else {
         return Vec::new();
     };
     if prompt.chars().count() != width {
@@ -414,9 +519,9 @@ pub fn redraws(tty: &[u8]) -> Vec<(String, usize)> {
     }
     shots
         .into_iter()
-        .map(|(shown, cursor)| match shown.strip_prefix(&prompt) {
-            Some(rest) => (rest.to_string(), cursor.saturating_sub(width)),
-            None => (shown, cursor),
+        .map(|(shown, cursor, row)| match shown.strip_prefix(&prompt) {
+            Some(rest) => (rest.to_string(), cursor.saturating_sub(width), row),
+            None => (shown, cursor, row),
         })
         .collect()
 }
